@@ -657,6 +657,14 @@ def acos_asin(z, prec, rnd, n):
                 else:
                     pi = mpf_pi(prec, rnd)
                     return mpf_shift(pi, -1), mpf_neg(c)
+    # The steps below are accurate relative to 1: for small z (asin(z) ~ z)
+    # more bits are needed
+    if n == 1 and (a[1] or not a[2]) and b[1]:
+        mag = max([t[2]+t[3] for t in (a, b) if t[1]])
+        if mag < -8:
+            if mag < -wp:
+                return mpc_pos(z, prec, rnd)
+            wp += (-mag)
     asign = bsign = 0
     if a[0]:
         a = mpf_neg(a)
@@ -665,6 +673,14 @@ def acos_asin(z, prec, rnd, n):
         b = mpf_neg(b)
         bsign = 1
     am = mpf_sub(fone, a, wp)
+    if n == 0 and not asign and b[1]:
+        # next to the branch point +1, acos(z) ~ sqrt(2*(1-z)) is small
+        d = b[2]+b[3]
+        if am[1]:
+            d = max(d, am[2]+am[3])
+        if d < -8:
+            wp += (-d)//2 + 2
+            am = mpf_sub(fone, a, wp)
     ap = mpf_add(fone, a, wp)
     r = mpf_hypot(ap, b, wp)
     s = mpf_hypot(am, b, wp)
